@@ -120,9 +120,15 @@ func bldSimulate(target int, ms uint64, q modbus.BuilderRequest) (packet.Respons
 
 // ---------- split_seq ----------
 func splitSeqCase(fields []modbus.Field, fluent bool, targets []int, ms uint64) {
+	splitSeqRun(func() *modbus.Builder { return bldMakeBuilder(fields, fluent) }, fields, targets, ms)
+}
+
+// splitSeqRun: the builder returned by mk must behave as a Builder holding exactly [fields] (the
+// definitions as they were when they were handed to it), for every build of the sequence
+func splitSeqRun(mk func() *modbus.Builder, fields []modbus.Field, targets []int, ms uint64) {
 	var tidss []V
 	outcome := guard(func() V {
-		b := bldMakeBuilder(fields, fluent)
+		b := mk()
 		elems := make([]V, 0, len(targets))
 		for _, t := range targets {
 			reqs, err := bldBuild(b, t)
